@@ -46,6 +46,9 @@ def gen_film(rnd, size="small"):
     elif size == "small":
         w, h = rnd.choice([4.0, 5.0, 6.0, 8.0]), rnd.choice([3.0, 4.0, 5.0])
         npts = rnd.choice([16, 20, 24, 28, 36])
+    elif size == "large":
+        w, h = rnd.choice([12.0, 14.0]), rnd.choice([9.0, 10.0])
+        npts = rnd.choice([60, 80])
     else:
         w, h = rnd.choice([6.0, 8.0, 10.0]), rnd.choice([4.0, 6.0])
         npts = rnd.choice([36, 48, 60])
@@ -139,6 +142,8 @@ def gen_device(rnd, size="small", n_terminals=None, n_probes=None, n_holes=None,
     mesh = {"max_edge_length": 0, "smooth": rnd.choice([0, 0, 1, 3])}
     if size == "medium" and rnd.random() < 0.5:
         mesh["max_edge_length"] = rnd.choice([1.0, 1.5])
+    if size == "large":
+        mesh["max_edge_length"] = rnd.choice([0.6, 0.7])  # 500..1200 sites
     return {
         "name": "dev",
         "length_units": lu,
